@@ -37,6 +37,8 @@ type decision struct {
 	chain    []ssa.Value // D, …, D0
 	sd, su   ssa.CallInstruction
 	noop     ssa.CallInstruction
+	sdA, suA *ActCall // the same calls with the context they are made in (the scan body or a helper of it)
+	noopA    *ActCall
 	override []overrideDef
 }
 
@@ -57,6 +59,14 @@ func isMaxOne(v ssa.Value, prev ssa.Value) bool {
 			return ok && k.Value != nil && k.Value.String() == "1"
 		}
 		return (a0 == prev && one(a1)) || (a1 == prev && one(a0))
+	}
+	// a one-line repo helper `func atLeastOne(d int) int { return max(d, 1) }` applied to prev
+	if c, ok := v.(*ssa.Call); ok && len(c.Common().Args) == 1 && c.Common().Args[0] == prev {
+		if h := c.Common().StaticCallee(); h != nil && h.Blocks != nil && len(h.Blocks) == 1 && len(h.Params) == 1 && h.Pkg != nil && prev != nil {
+			if r, ok := h.Blocks[0].Instrs[len(h.Blocks[0].Instrs)-1].(*ssa.Return); ok && len(r.Results) == 1 {
+				return isMaxOne(r.Results[0], h.Params[0])
+			}
+		}
 	}
 	cv, ok := v.(*ssa.Convert)
 	if !ok {
@@ -92,10 +102,10 @@ func (ck *Check) findDecision(rule string) *decision {
 			deltaIdx = i
 		}
 	}
-	deltaOf := func(ci ssa.CallInstruction) *Term {
-		for _, av := range ci.Common().Args {
+	deltaOf := func(ac *ActCall) *Term {
+		for _, av := range ac.Call.Common().Args {
 			if types.Identical(av.Type(), a.TScaleOpts) {
-				t := d.ctx.Term(av)
+				t := ac.Ctx.Term(av)
 				if t.Kind == "struct" && deltaIdx >= 0 {
 					return t.Args[deltaIdx]
 				}
@@ -103,26 +113,35 @@ func (ck *Check) findDecision(rule string) *decision {
 		}
 		return nil
 	}
-	for _, ci := range callsTo(a.Scan, a.ScaleDown) {
-		d.sd = ci
+	// the dispatch may sit in the scan body or in a helper the scan body calls (its extended body)
+	callsOf := func(f *ssa.Function) []ActCall {
+		return ck.bodyCalls(a.Scan, func(ci ssa.CallInstruction) bool { return f != nil && ci.Common().StaticCallee() == f })
+	}
+	for _, ac := range callsOf(a.ScaleDown) {
+		ac := ac
+		d.sd, d.sdA = ac.Call, &ac
 	}
 	if d.sd == nil {
 		ck.fail(rule, "scan/ScaleDown-call", "", funcID(a.Scan), "the scan body dispatches to ScaleDown", "no call", "")
 		return nil
 	}
-	dt := deltaOf(d.sd)
+	dt := deltaOf(d.sdA)
 	if dt == nil || dt.Kind != "unop" || dt.Name != "-" || dt.Args[0].Kind != "phi" {
 		ck.fail(rule, ck.P.siteKey(d.sd)+"/count", ck.P.instrPos(d.sd), funcID(a.Scan), "ScaleDown is given nodesDelta = −d for the decided delta d", fmt.Sprint(dt), "the number of nodes to taint is not the negated decision")
 		return nil
 	}
 	d.D = dt.Args[0].Val.(*ssa.Phi)
-	for _, ci := range callsTo(a.Scan, a.ScaleUp) {
-		if t := deltaOf(ci); t != nil && t.Kind == "phi" && t.Val == ssa.Value(d.D) {
-			d.su = ci
+	for _, ac := range callsOf(a.ScaleUp) {
+		ac := ac
+		if t := deltaOf(&ac); t != nil && t.Kind == "phi" && t.Val == ssa.Value(d.D) {
+			d.su, d.suA = ac.Call, &ac
 		}
 	}
-	for _, ci := range callsTo(a.Scan, a.GraceReaper) {
-		d.noop = ci
+	for _, ac := range callsOf(a.GraceReaper) {
+		ac := ac
+		if ac.Fn == d.sdA.Fn {
+			d.noop, d.noopA = ac.Call, &ac
+		}
 	}
 	// peel overrides: cur = φ whose edges are all `prev` or "raise prev to at least 1"
 	// (int(math.Max(float64(prev), 1)) or the constant 1 under prev < 1), possibly through a nested φ
@@ -443,26 +462,26 @@ func checkC06(ck *Check) {
 		zero := zeroTerm(types.Typ[types.Int])
 		neg := cmpFormula(token.LSS, D, zero)
 		pos := cmpFormula(token.LSS, zero, D)
-		ck.entails("C06.R3", ck.P.siteKey(d.sd)+"/guard", d.sd, ctx.PC(d.sd), neg, "PC(ScaleDown) ⇒ d < 0")
+		ck.entails("C06.R3", ck.P.siteKey(d.sd)+"/guard", d.sd, d.sdA.PC, neg, "PC(ScaleDown) ⇒ d < 0")
 		if d.su == nil {
 			ck.fail("C06.R3", "scan/ScaleUp-dispatch", "", funcID(fn), "the scan body dispatches to ScaleUp with nodesDelta = d", "no such call", "")
 		} else {
-			ck.entails("C06.R3", ck.P.siteKey(d.su)+"/guard", d.su, ctx.PC(d.su), pos, "PC(ScaleUp with count d) ⇒ d > 0")
+			ck.entails("C06.R3", ck.P.siteKey(d.su)+"/guard", d.su, d.suA.PC, pos, "PC(ScaleUp with count d) ⇒ d > 0")
 		}
 		if d.noop == nil {
 			ck.fail("C06.R3", "scan/noop-reaper", "", funcID(fn), "the no-op arm runs the grace reaper", "no direct call", "")
 		} else {
-			ck.entails("C06.R3", ck.P.siteKey(d.noop)+"/guard", d.noop, ctx.PC(d.noop), And(Not(neg), Not(pos)), "PC(no-op reaper) ⇒ d = 0")
+			ck.entails("C06.R3", ck.P.siteKey(d.noop)+"/guard", d.noop, d.noopA.PC, And(Not(neg), Not(pos)), "PC(no-op reaper) ⇒ d = 0")
 		}
-		if d.su != nil && d.noop != nil {
+		if d.su != nil && d.noop != nil && d.suA.Fn == d.sdA.Fn && d.noopA.Fn == d.sdA.Fn {
 			// completeness: whenever the dispatch point is reached exactly the arm of the sign runs
 			dom := d.sd.Block()
 			for dom != nil && !(dom.Dominates(d.su.Block()) && dom.Dominates(d.noop.Block()) && dom.Dominates(d.sd.Block())) {
 				dom = dom.Idom()
 			}
 			if dom != nil {
-				R := Or(ctx.PC(d.sd), ctx.PC(d.su), ctx.PC(d.noop))
-				okv, why, err := Equivalent(R, ctx.BlockPC(dom))
+				R := Or(d.sdA.PC, d.suA.PC, d.noopA.PC)
+				okv, why, err := Equivalent(R, And(d.sdA.Pre, d.sdA.Ctx.BlockPC(dom)))
 				if err != nil {
 					ck.undecided("C06.R3", "scan/dispatch-complete", "", funcID(fn), "dispatch completeness", err.Error())
 				} else {
